@@ -117,13 +117,21 @@ pub async fn run_session(context: SessionContext) {
             };
             if requires_workspace_lock(&invocation.name) {
                 let _guard = workspace_lock.acquire().await;
+                #[cfg(feature = "verif")]
+                let verif_ctx = format!("{} {}", runtime_session_id, invocation.name);
+                #[cfg(feature = "verif")]
+                rip_kernel::verif::point("ws.exec.begin", &verif_ctx);
                 let tool_events = tool_runner
                     .run(&runtime_session_id, &mut seq, invocation)
                     .await;
+                #[cfg(feature = "verif")]
+                rip_kernel::verif::point("ws.exec.end", &verif_ctx);
                 let side_effects = summarize_continuity_tool_side_effects(&tool_events);
                 session.set_seq(seq);
                 emit_events(tool_events, &sender, &events, &event_log).await;
                 if let (Some(link), Some(side_effects)) = (continuity_run.as_ref(), side_effects) {
+                    #[cfg(feature = "verif")]
+                    rip_kernel::verif::point("ws.side_effects.before_append", &verif_ctx);
                     let _ = continuities.append_tool_side_effects(
                         link,
                         &runtime_session_id,
@@ -131,9 +139,15 @@ pub async fn run_session(context: SessionContext) {
                     );
                 }
             } else {
+                #[cfg(feature = "verif")]
+                let verif_ctx = format!("{} {}", runtime_session_id, invocation.name);
+                #[cfg(feature = "verif")]
+                rip_kernel::verif::point("ws.exec.begin", &verif_ctx);
                 let tool_events = tool_runner
                     .run(&runtime_session_id, &mut seq, invocation)
                     .await;
+                #[cfg(feature = "verif")]
+                rip_kernel::verif::point("ws.exec.end", &verif_ctx);
                 session.set_seq(seq);
                 emit_events(tool_events, &sender, &events, &event_log).await;
             }
@@ -141,6 +155,10 @@ pub async fn run_session(context: SessionContext) {
         InputAction::Checkpoint(command) => {
             let mut seq = session.seq();
             let _guard = workspace_lock.acquire().await;
+            #[cfg(feature = "verif")]
+            let verif_ctx = format!("{} checkpoint", runtime_session_id);
+            #[cfg(feature = "verif")]
+            rip_kernel::verif::point("ws.exec.begin", &verif_ctx);
             let checkpoint_events = match command {
                 CheckpointCommand::Create { label, files } => tool_runner.create_checkpoint(
                     &runtime_session_id,
@@ -152,6 +170,8 @@ pub async fn run_session(context: SessionContext) {
                     tool_runner.rewind_checkpoint(&runtime_session_id, &mut seq, &id)
                 }
             };
+            #[cfg(feature = "verif")]
+            rip_kernel::verif::point("ws.exec.end", &verif_ctx);
             session.set_seq(seq);
             emit_events(checkpoint_events, &sender, &events, &event_log).await;
         }
@@ -411,6 +431,8 @@ impl<'a> OpenResponsesSsePipe<'a> {
     }
 
     async fn push_bytes(&mut self, utf8_buf: &mut Vec<u8>, bytes: &[u8]) -> bool {
+        #[cfg(feature = "verif")]
+        rip_kernel::verif::point_with("sse.chunk", || bytes.len().to_string());
         utf8_buf.extend_from_slice(bytes);
         let mut saw_done = false;
 
@@ -1332,16 +1354,30 @@ async fn run_openresponses_agent_loop(
                 output_value
             } else if requires_workspace_lock(&invocation.name) {
                 let _guard = workspace_lock.acquire().await;
+                #[cfg(feature = "verif")]
+                let verif_ctx = format!("{} {}", session_id, invocation.name);
+                #[cfg(feature = "verif")]
+                rip_kernel::verif::point("ws.exec.begin", &verif_ctx);
                 let tool_events = tool_runner.run(session_id, seq, invocation).await;
+                #[cfg(feature = "verif")]
+                rip_kernel::verif::point("ws.exec.end", &verif_ctx);
                 let side_effects = summarize_continuity_tool_side_effects(&tool_events);
                 let output_value = tool_events_to_function_call_output(&call.name, &tool_events);
                 sink.emit_all(tool_events).await;
                 if let (Some(link), Some(side_effects)) = (continuity_run, side_effects) {
+                    #[cfg(feature = "verif")]
+                    rip_kernel::verif::point("ws.side_effects.before_append", &verif_ctx);
                     let _ = continuities.append_tool_side_effects(link, session_id, side_effects);
                 }
                 output_value
             } else {
+                #[cfg(feature = "verif")]
+                let verif_ctx = format!("{} {}", session_id, invocation.name);
+                #[cfg(feature = "verif")]
+                rip_kernel::verif::point("ws.exec.begin", &verif_ctx);
                 let tool_events = tool_runner.run(session_id, seq, invocation).await;
+                #[cfg(feature = "verif")]
+                rip_kernel::verif::point("ws.exec.end", &verif_ctx);
                 let output_value = tool_events_to_function_call_output(&call.name, &tool_events);
                 sink.emit_all(tool_events).await;
                 output_value
@@ -1602,9 +1638,79 @@ async fn emit_event(
     event_log: &EventLog,
 ) {
     let _ = sender.send(event.clone());
+    #[cfg(feature = "verif")]
+    rip_kernel::verif::point_with("session.emit.after_send", || {
+        format!("{} {}", event.session_id, event.seq)
+    });
     let mut guard = buffer.lock().await;
     guard.push(event.clone());
+    #[cfg(feature = "verif")]
+    rip_kernel::verif::point_with("session.emit.after_record", || {
+        format!("{} {}", event.session_id, event.seq)
+    });
     let _ = event_log.append(&event);
+}
+
+/// Verification export: run the run-time context compile for a thread-attached run and, when
+/// `append_frames` is set, log the same two frames a real run logs. Returns what was decided.
+#[cfg(feature = "verif")]
+pub(crate) fn verif_compile_context_for_run(
+    continuities: &ContinuityStore,
+    event_log: &EventLog,
+    snapshot_dir: &Path,
+    run: &ContinuityRunLink,
+    run_session_id: &str,
+    append_frames: bool,
+) -> Result<Value, String> {
+    let outcome =
+        compile_context_bundle_for_run(continuities, event_log, snapshot_dir, run, run_session_id)?;
+    let ContextCompileOutcomeForRun { decision, compiled } = outcome;
+    let out = serde_json::json!({
+        "compiler_id": decision.compiler_id,
+        "compiler_strategy": decision.compiler_strategy,
+        "limits": decision.limits,
+        "compaction_checkpoint": decision.compaction_checkpoint,
+        "compaction_checkpoints": decision.compaction_checkpoints,
+        "resets": decision.resets,
+        "reason": decision.reason,
+        "bundle_artifact_id": compiled.bundle_artifact_id,
+        "from_seq": compiled.from_seq,
+        "from_message_id": compiled.from_message_id,
+        "items": compiled.items.len(),
+    });
+    if append_frames {
+        let compiler_strategy = decision.compiler_strategy.clone();
+        continuities.append_context_selection_decided(
+            &run.continuity_id,
+            ContextSelectionDecidedPayload {
+                run_session_id: run_session_id.to_string(),
+                message_id: run.message_id.clone(),
+                compiler_id: decision.compiler_id,
+                compiler_strategy,
+                limits: decision.limits,
+                compaction_checkpoint: decision.compaction_checkpoint,
+                compaction_checkpoints: decision.compaction_checkpoints,
+                resets: decision.resets,
+                reason: decision.reason,
+                actor_id: run.actor_id.clone(),
+                origin: run.origin.clone(),
+            },
+        )?;
+        continuities.append_context_compiled(
+            &run.continuity_id,
+            ContextCompiledPayload {
+                run_session_id: run_session_id.to_string(),
+                bundle_artifact_id: compiled.bundle_artifact_id,
+                compiler_id: CONTEXT_COMPILER_ID_V1.to_string(),
+                compiler_strategy: decision.compiler_strategy,
+                from_seq: compiled.from_seq,
+                from_message_id: compiled.from_message_id,
+                actor_id: run.actor_id.clone(),
+                origin: run.origin.clone(),
+            },
+        )?;
+    }
+    Ok(out)
 }
 
 #[cfg(test)]
